@@ -419,5 +419,10 @@ example : deserialize false [("a".toList, "sha256:00".toList), ("b".toList, List
 example : (addChecksums [] [("md5".toList, some "a".toList), ("md5".toList, some "b".toList), ("md5".toList, none)]).lookup "md5".toList
     = some (some "a".toList) := by decide
 example : readTrace true 4 9 = [4, 4, 1, 0] := by decide
+/-- keys are exact spellings: `SHA256` and `sha256` are two independent types (what the code does; `C16_image_monotone`
+is about the exact key), and a second value under the SAME spelling is refused -/
+example : addChecksums [] [("sha256".toList, some "a".toList), ("SHA256".toList, some "b".toList)]
+    = [("sha256".toList, some "a".toList), ("SHA256".toList, some "b".toList)] := by decide
+example : (addChecksum [("SHA256".toList, some "a".toList)] "SHA256".toList (some "b".toList)).2 = .error .valueError := by rfl
 
 end PM
